@@ -475,9 +475,10 @@ class spawn(SpawnBase):
                 try:
                     incoming += super(spawn, self).read_nonblocking(size - len(incoming))
                 except EOF:
-                    # Maybe the child is dead: update some attributes in that case
-                    self.isalive()
-                    # Don't raise EOF, just return what we read so far.
+                    # Don't raise EOF, just return what we read so far: the
+                    # next read reports it (and updates the child's status;
+                    # doing that here can block, and an exception arriving
+                    # meanwhile would lose what has been read).
                     return incoming
             return incoming
 
